@@ -25,6 +25,13 @@ impl<'a, T> MMWriter<'a, T> {
     where
         T: Copy,
     {
+        #[cfg(kmertools_verif)]
+        verif_rt::mmap::on_write(
+            self.slice.as_ptr() as usize,
+            std::mem::size_of_val(self.slice),
+            pos * std::mem::size_of::<T>(),
+            std::mem::size_of_val(data),
+        );
         ptr::copy_nonoverlapping(data.as_ptr(), self.slice[pos].get(), data.len());
     }
 }
